@@ -57,6 +57,27 @@ fn detour<D: Unweighted>(r: &mut Rng, m: &Model) -> (D, usize) {
         }
         d.add_arc(u, v);
         steps += 1;
+        if r.chance(0.25) {
+            // operations that are documented no-ops: removing an arc that is
+            // absent, or one with an endpoint outside V (remove_arc is total)
+            let a = r.below(n);
+            let far = *r.pick(&[n, n + 1, 2 * n, n * n, n * n + 1, 64, 1 << 20, usize::MAX]);
+            let near = n + r.below(n * n + 1);
+            let (x, y) = match r.below(5) {
+                0 => (a, far),
+                1 => (far, a),
+                2 => (a, near),
+                3 => (near, a),
+                _ => {
+                    let b = r.below(n);
+                    if m.has(a, b) || a == b { (far, near) } else { (a, b) }
+                }
+            };
+            if !d.has_arc(x, y) {
+                let _ = d.remove_arc(x, y);
+                steps += 1;
+            }
+        }
         if r.chance(0.2) {
             d.add_arc(u, v);
             steps += 1;
